@@ -106,6 +106,14 @@ def sel_rotate_component(repo, tier="quick"):
     for n in ast.walk(fn):
         if isinstance(n, ast.Call) and isinstance(n.func, ast.Attribute) and n.func.attr in ("remove_edge", "remove_edges_from") and isinstance(n.func.value, ast.Name):
             cut_graphs.add(n.func.value.id)
+    # ... or the bond is masked instead of removed: nx.restricted_view(graph, nodes, edges) with a non-empty edge list
+    for n in ast.walk(fn):
+        if isinstance(n, ast.Assign) and len(n.targets) == 1 and isinstance(n.targets[0], ast.Name) and isinstance(n.value, ast.Call):
+            nm = _ext(repo, fi, n.value) or ""
+            if nm.endswith("restricted_view"):
+                ed = next((k.value for k in n.value.keywords if k.arg == "edges"), n.value.args[2] if len(n.value.args) > 2 else None)
+                if isinstance(ed, (ast.List, ast.Tuple)) and ed.elts:
+                    cut_graphs.add(n.targets[0].id)
     need(cut_graphs, "anchor vanished: rotate_subgraph no longer removes the anchor-target bond from a copy of the graph", fi)
     comp_calls = []     # (call, kind, statement)
     for st in slice_stmts:
